@@ -119,7 +119,8 @@ def declared(node, names):
 
 
 class Monitor:
-    def __init__(self, mode="exact", pids=("C01", "C03", "C06", "C12"), tol=1e-7):
+    def __init__(self, mode="exact", pids=("C01", "C03", "C06", "C12"), tol=1e-7, cfg=None):
+        self.cfg = cfg
         self.mode = mode
         self.pids = set(pids)
         self.tol = tol
@@ -150,6 +151,8 @@ class Monitor:
         self.names = names
         self.pre = {n.name: (node_stock(n, names), node_decayed(n, names)) for n in model.nodes.values()}
         self.pre_arcs = {a.name: arc_transit(a, names) for a in model.arcs.values()}
+        self.pre_surf = {(n.name, i): self.num(sf.storage["volume"]) for n in model.nodes.values()
+                         for i, sf in enumerate(getattr(n, "surfaces", []))}
         # C03 close-out: what the stores hold now + what decayed at close-out == what they held before it
         if self.post_prev is not None:
             tot_pre = zeros(len(names))
@@ -217,11 +220,92 @@ class Monitor:
             self.bad("C03", f"{date.date()}: stock change {fmt(vsub(tot_post, tot_pre))} + decayed {fmt(decw)} != "
                             f"boundary inflow - outflow {fmt(boundary)}")
         self.post_prev = tot_post
+        if "C17" in self.pids and self.cfg is not None:
+            self.boundary(model, date)
         if self.mode != "exact":
             for k, v in list(rec["flows"].items()) + list(rec["stores"].items()):
                 if isinstance(v, float) and not math.isfinite(v):
                     self.bad("C12", f"{date.date()}: non-finite value at {k}: {v}")
         self.records.append(rec)
+
+
+def _boundary(self, model, date):
+    """C17: the declared boundary terms against an independent evaluation of the forcing data (taken from the
+    configuration the model was built from, not from the node objects)"""
+    ds = str(date.date())
+    num = self.num
+    adds = self.names[1:]
+
+    def close(a, b, scale=1):
+        return self.eq((a,), (b,), scale)
+
+    for nd in self.cfg["nodes"]:
+        node = model.nodes[nd["name"]]
+        cls = NG.cls_of(nd)
+        if cls == "Catchment":
+            d = nd["data_input_dict"]
+            flow = num(d[("flow", ds)])
+            gf = node.get_flow()
+            if not close(num(gf["volume"]), flow, flow):
+                self.bad("C17", f"{ds} catchment {node.name} declares inflow {num(gf['volume'])} but the data say {flow}")
+            for p in adds:
+                want = num(d[(p, ds)]) * flow
+                if not close(num(gf[p]), want, want):
+                    self.bad("C17", f"{ds} catchment {node.name} declares {p} {num(gf[p])} but concentration x flow is {want}")
+            rel = sum(num(a.vqip_in["volume"]) for a in node.out_arcs.values()) + num(node.unrouted_water["volume"])
+            if not close(rel, flow, flow):
+                self.bad("C17", f"{ds} catchment {node.name} released {rel} (arcs incl. abstractions + unrouted) for a flow of {flow}")
+        elif cls == "Land":
+            d = nd["data_input_dict"]
+            rain, et0 = num(d[("precipitation", ds)]), num(d[("et0", ds)])
+            for i, sc in enumerate(nd["surfaces"]):
+                sf = node.surfaces[i]
+                area = num(sc["area"])
+                if sc["type_"] == "ImperviousSurface":
+                    coef = num(sc.get("et0_to_e", 1))
+                elif sc["type_"] == "PerviousSurface":
+                    coef = num(sc.get("et0_coefficient", 0.5))
+                else:
+                    continue
+                pr, ev = num(sf.precipitation["volume"]), num(sf.evaporation["volume"])
+                stored = self.pre_surf[(node.name, i)]
+                sc_ = max(1.0, float(rain * area))
+                if not close(pr, rain * area, sc_):
+                    self.bad("C17", f"{ds} {sc['type_']} of {node.name}: declared rain {pr} but depth x area is {rain * area}")
+                slack = 0 if self.mode == "exact" else 1e-9 * sc_
+                if ev > et0 * coef * area + slack:
+                    self.bad("C17", f"{ds} {sc['type_']} of {node.name}: evaporation {ev} exceeds potential evaporation x area {et0 * coef * area}")
+                if ev > rain * area + stored + slack:
+                    self.bad("C17", f"{ds} {sc['type_']} of {node.name}: evaporation {ev} exceeds rain + stored water {rain * area + stored}")
+                if ev < -slack:
+                    self.bad("C17", f"{ds} {sc['type_']} of {node.name}: negative evaporation {ev}")
+        elif cls in ("ResidentialDemand", "Demand"):
+            td = node.total_demand
+            if cls == "ResidentialDemand":
+                want_v = num(nd["population"]) * num(nd["per_capita"])
+                want_p = {p: num(nd["pollutant_load"].get(p, 0)) * num(nd["population"]) for p in adds}
+                # garden demand is asked of Land nodes; the generator has no garden surfaces, so it is zero
+            else:
+                want_v = num(nd["constant_demand"])
+                want_p = {p: num(nd["pollutant_load"].get(p, 0)) for p in adds}
+            if not close(num(td["volume"]), want_v, want_v):
+                self.bad("C17", f"{ds} demand {node.name} declares {num(td['volume'])} but the parameters give {want_v}")
+            for p in adds:
+                if not close(num(td[p]), want_p[p], want_p[p]):
+                    self.bad("C17", f"{ds} demand {node.name} declares {p} load {num(td[p])} but the parameters give {want_p[p]}")
+        elif cls == "Waste":
+            tot = sum(num(a.vqip_out["volume"]) for a in node.in_arcs.values())
+            dec = num(node.mass_balance_out[-1]()["volume"])
+            if not close(dec, tot, tot):
+                self.bad("C17", f"{ds} outlet {node.name} removes {dec} but {tot} reached it")
+
+
+def _num(self, x):
+    return frac(x) if self.mode == "exact" else float(x)
+
+
+Monitor.boundary = _boundary
+Monitor.num = _num
 
 
 def known_c01(node, lhs, rhs):
@@ -236,7 +320,7 @@ def run_cfg(cfg, mode="exact", pids=("C01", "C03", "C06", "C12"), orchestration=
     """build and run; returns (monitor, model, exception text or None, captured stdout)"""
     buf = io.StringIO()
     err = None
-    mon = mon or Monitor(mode, pids)
+    mon = mon or Monitor(mode, pids, cfg=cfg)
     try:
         with contextlib.redirect_stdout(buf):
             if model is None:
